@@ -196,6 +196,57 @@ def fault_nested_pair(data, o, rng):
                   _rec("size", o, itb, size_item[bi], old=itb[3], new=new_b, region=b.kind, delta=delta)]
 
 
+def enclosing_chains(o, min_depth=2):
+    """for every primitive item: the sized regions (those with a size field of their own) that enclose it, outermost first"""
+    size_item = {ri: idx for idx, ri in o.sizefields}
+    regs = [(ri, r) for ri, r in enumerate(o.regions) if r.max is not None and ri in size_item]
+    out = []
+    for idx, it in enumerate(o.items):
+        if it[0] != "P":
+            continue
+        enc = [(ri, r) for ri, r in regs if size_item[ri] < idx and r.start <= it[4] and it[4] + it[5] <= r.start + r.max]
+        if len(enc) >= min_depth:
+            out.append((idx, sorted(enc, key=lambda x: (x[1].start, -x[1].max, x[0]))))
+    return out
+
+
+def fault_nested_chain(data, o, rng, chains=None):
+    """k >= 2 cooperating size faults on regions nested in one another: every one of them is made to end inside (or right in
+    front of) the *same* primitive field, the ends ordered inner <= outer as a rule - one field overruns two, three or
+    more regions at once, by different amounts.  Whatever is charged, skipped and reported for the region the error names
+    must not depend on how many regions inside it were overrun too."""
+    size_item = {ri: idx for idx, ri in o.sizefields}
+    chains = chains if chains is not None else enclosing_chains(o)
+    if not chains:
+        return None
+    deepest = max(len(c) for _, c in chains)
+    pool = [x for x in chains if len(x[1]) == deepest] if rng.random() < 0.7 else chains
+    wide = [x for x in pool if o.items[x[0]][5] >= 2]
+    idx, chain = rng.choice(wide if (wide and rng.random() < 0.85) else pool)
+    it = o.items[idx]
+    if len(chain) > 2 and rng.random() < 0.4:
+        keep = sorted(rng.sample(range(len(chain)), rng.randint(2, len(chain))))
+        chain = [chain[k] for k in keep]
+    ends = sorted(it[4] + rng.randrange(0, it[5]) for _ in chain)      # offsets at which the regions end; outermost last
+    ends.reverse()                                                      # chain is outermost first
+    if rng.random() < 0.12:
+        rng.shuffle(ends)                                               # an inner region reaching beyond an outer one: anticipated
+    cur, recs = data, []
+    for (ri, r), e in zip(chain, ends):
+        sit = o.items[size_item[ri]]
+        new = e - r.start
+        if new < 0 or new == sit[3]:
+            continue
+        nxt = put(cur, sit, new)
+        if nxt is None:
+            return None
+        cur = nxt
+        recs.append(_rec("size", o, sit, size_item[ri], old=sit[3], new=new, region=r.kind, delta="chain"))
+    if len(recs) < 2:
+        return None
+    return cur, recs
+
+
 def fault_end_at_selector(data, o, rng):
     """two coordinated faults: a union selector is made invalid (selects no member) and an enclosing sized region is made to
     end exactly behind the selector, i.e. exactly where the union would start - nothing is left over, nothing is missing,
